@@ -716,6 +716,26 @@ class Dual(_ScalarLike):
         e = self.v.exp()
         return Dual(e, self.d * e)
 
+    def log(self):
+        return Dual(self.v.log(), self.d / self.v)
+
+    def log1p(self):
+        return Dual(self.v.log1p(), self.d / (1 + self.v))
+
+    def tanh(self):
+        t = self.v.tanh()
+        return Dual(t, self.d * (1 - t * t))
+
+    def sign(self):
+        return Dual(self.v.sign())
+
+    def square(self):
+        return self * self
+
+    @property
+    def isreal(self):
+        return self.v.isreal and self.d.isreal
+
     def cos(self):
         return Dual(self.v.cos(), -(self.d * self.v.sin()))
 
